@@ -276,6 +276,29 @@ func hasherScenario() *explore.Scenario {
 				}
 			}
 		}
+		// the metadata-field hasher: equal field values are one key; a message without the field has no key at
+		// all, it is not a duplicate of anything and must not be dropped as a success
+		{
+			d := &middleware.Deduplicator{KeyFactory: middleware.NewMessageHasherFromMetadataField("dedup-key")}
+			handled := map[string]int{}
+			h := d.Middleware(func(m *message.Message) ([]*message.Message, error) { handled[m.UUID]++; return nil, nil })
+			mk := func(uuid, key string) *message.Message {
+				m := message.NewMessage(uuid, []byte("payload "+uuid))
+				if key != "" {
+					m.Metadata.Set("dedup-key", key)
+				}
+				return m
+			}
+			for _, m := range []*message.Message{mk("a", "k1"), mk("b", "k1"), mk("c", "k2"), mk("d", ""), mk("e", "")} {
+				_, err := h(m)
+				if m.Metadata.Get("dedup-key") == "" && err == nil && handled[m.UUID] == 0 {
+					vs.Fail("no-key-is-not-a-duplicate", "message %s has no deduplication key (the hasher failed) and was dropped as a success", m.UUID)
+				}
+			}
+			if handled["a"] != 1 || handled["b"] != 0 || handled["c"] != 1 {
+				vs.Fail("exactly-one-per-key", "metadata-field hasher: handled %v for keys a:k1 b:k1 c:k2", handled)
+			}
+		}
 		vs.Note("limit=%d pairs=%d", limit, n)
 	}}
 }
